@@ -138,6 +138,12 @@ def stage_rotation_q(ctx):
     exprs, metas = [], []
     n = ctx.n(150, 1500)
     trip = [(t, True) for t in angle_triples(rng, n)] + [(t, False) for t in angle_triples(rng, n // 3, True)]
+    # the same three NUMBERS read as radians and straight afterwards as degrees (and the other way round): one-factor siblings
+    sib = []
+    for t in angle_triples(rng, n // 10) + angle_triples(rng, n // 10, True):
+        first = rng.random() < 0.5
+        sib += [(t, first), (t, not first)]
+    trip = trip[:n // 2] + sib + trip[n // 2:]
     for k, (ang, rad) in enumerate(trip):
         if rad and k % 2:
             m = rotation_matrix(*ang)                  # default radians
